@@ -688,6 +688,8 @@ func (fv *FV) execFieldAddr(st *State, x *ssa.FieldAddr) {
 	switch ft.Underlying().(type) {
 	case *types.Struct:
 		d := fv.faRef(structT, x.Field, r)
+		// the address of a field is never nil (derived refs live below zero, like element addresses)
+		fv.assume(st, sx("<", d, "0"))
 		fv.setVal(x, d)
 		fv.ptrs[x] = &Loc{structRef: d, ty: ft}
 		return
@@ -695,7 +697,9 @@ func (fv *FV) execFieldAddr(st *State, x *ssa.FieldAddr) {
 	f := fv.fieldFam(structT, x.Field)
 	fv.ptrs[x] = &Loc{fam: f.Key, args: []string{r}, ty: ft}
 	// a first-class value for the pointer, should it escape
-	fv.setVal(x, fv.faRef(structT, x.Field, r))
+	d := fv.faRef(structT, x.Field, r)
+	fv.assume(st, sx("<", d, "0"))
+	fv.setVal(x, d)
 }
 
 func (fv *FV) execIndexAddr(st *State, x *ssa.IndexAddr) {
